@@ -144,6 +144,11 @@ fn cs() -> impl Strategy<Value = Cs> {
 		2 => (0u8..=31, any::<u32>(), any::<u32>()).prop_map(|(z, x, y)| Cs::AnyZ(z, x, y)),
 		2 => (prop_oneof![32u16..=255, Just(256u16), 257u16..1000], 0u32..8, 0u32..8).prop_map(|(z, x, y)| Cs::HighZ(z, x, y)),
 		3 => (part(), part(), part()).prop_map(|(z, x, y)| Cs::Raw(z, x, y)),
+		// empty parts in every position, all three at once included (`/tiles/<id>///`)
+		1 => (any::<bool>(), any::<bool>(), any::<bool>(), part(), part(), part()).prop_map(|(a, b, c, z, x, y)| {
+			let (a, b, c) = if !(a || b || c) { (true, true, true) } else { (a, b, c) };
+			Cs::Raw(if a { Part::Empty } else { z }, if b { Part::Empty } else { x }, if c { Part::Empty } else { y })
+		}),
 		4 => (any::<u16>(), 0u8..3, 0u8..8).prop_map(|(s, w, k)| Cs::Respell(s, w, k)),
 	]
 }
@@ -465,11 +470,6 @@ fn oracle(case: &Case, obs: &mut Obs) -> Result<(), Fail> {
 			}
 		}
 		let ext = r.ext.map(|i| EXTS[i as usize % EXTS.len()]).unwrap_or("");
-		if spelled.iter().all(|(s, _)| s.is_empty()) && ext.is_empty() {
-			// `/tiles/<id>///` has no path parts at all: outside the stated request form
-			bump("skipped:no-parts");
-			continue;
-		}
 		let class = classify(&[spelled[0].1.clone(), spelled[1].1.clone(), spelled[2].1.clone()]);
 		let target = format!("/tiles/{}/{}/{}/{}{}", b.id, spelled[0].0, spelled[1].0, spelled[2].0, ext);
 		let (hdr_val, listed) = match &r.accept {
@@ -532,6 +532,9 @@ fn oracle(case: &Case, obs: &mut Obs) -> Result<(), Fail> {
 			}
 			Class::HasEmpty => {
 				bump("class:empty-part");
+				if spelled.iter().all(|p| p.1 == PC::Empty) {
+					bump("class:all-parts-empty");
+				}
 				ensure_prop!(resp.status == 400 || resp.status == 404, "tile:status", "{ctx}: a part is empty but the status is {} (expected 400 or 404)", resp.status);
 			}
 			Class::Ambiguous(readings) => {
